@@ -1206,6 +1206,13 @@ func checkPadding(r *Report, a *Analysis, sc *Scope, rule string, strict bool) {
 				if ai.Args[0] == buf {
 					emptyA = name
 				}
+			case "eq":
+				// pad == 0 for a count read from a byte (never negative) is pad < 1
+				for i := 0; i < 2 && len(ai.Args) == 2 && len(ai.Vals) == 2; i++ {
+					if ai.Args[i] == "c:0" && strings.Contains(ai.Args[1-i], buf) && fromUnsigned(ai.Vals[1-i]) {
+						padLt1 = name
+					}
+				}
 			case "lt":
 				switch {
 				case ai.Args[1] == "c:1" && strings.Contains(ai.Args[0], buf):
@@ -1290,6 +1297,21 @@ func padStripBuf(fc *FuncCtx) (string, bool) {
 		}
 	}
 	return "", false
+}
+
+// fromUnsigned: v is an unsigned value converted to a wider integer type (int(buf[i])).
+func fromUnsigned(v ssa.Value) bool {
+	for i := 0; i < 3; i++ {
+		cv, ok := v.(*ssa.Convert)
+		if !ok {
+			break
+		}
+		if bt, ok := cv.X.Type().Underlying().(*types.Basic); ok && bt.Info()&types.IsUnsigned != 0 {
+			return true
+		}
+		v = cv.X
+	}
+	return false
 }
 
 var _ = sort.Strings
